@@ -4,4 +4,6 @@ go 1.18
 
 require github.com/b2broker/simplefix-go v0.0.0
 
+require golang.org/x/sync v0.0.0-20210220032951-036812b2e83c // indirect
+
 replace github.com/b2broker/simplefix-go => /repo
